@@ -31,6 +31,7 @@ def run(ctx: Ctx, env):
     if STRIPPER not in repo.classes:
         raise AnalysisError("odata_query.rewrite.IdentifierStripper not found")
     ci = repo.classes[STRIPPER]
+    stripper_quals = {STRIPPER, ci.qual}  # the class may live in a private module and be re-exported from rewrite.py
     # nodes are found by equality (dict lookup / `==`): structural equality over all fields is a precondition (C16's schema rules)
     from .c16 import check_node_schema
     from .c04 import _SubCtx
@@ -53,7 +54,7 @@ def run(ctx: Ctx, env):
     interp = env.interp()
     strip_arg = Sym("strip_argument")
     r = repo.lookup_method(STRIPPER, "visit_Attribute")
-    if r is None or r[0].qual != STRIPPER:
+    if r is None or r[0].qual not in stripper_quals:
         ctx.fail("R1.strip-shape", "visit_Attribute", "IdentifierStripper has no Attribute handler: nothing is stripped",
                  ci.module.loc(ci.node), WITNESS)
         return
@@ -152,12 +153,12 @@ def run(ctx: Ctx, env):
 
     sp = interp.explore(setup3)
     for x in sp:
-        news = [ev for ev in x.events if ev.kind == "new_obj" and ev.data["cls"] == STRIPPER]
+        news = [ev for ev in x.events if ev.kind == "new_obj" and ev.data["cls"] in stripper_quals]
         visits = [ev for ev in x.events if ev.kind == "visit"]
         given = (list(news[0].data["args"]) + [v for k, v in news[0].data.get("kwargs", {}).items() if k != "**"]) if len(news) == 1 else []
         ok = (x.outcome == "return" and len(news) == 1 and len(given) == 1 and
               repr(given[0]) == repr(Sym("param", params[0])) and len(visits) == 1 and
-              getattr(visits[0].data["arg"], "path", None) == "expression" and visits[0].data["vcls"] == STRIPPER and
+              getattr(visits[0].data["arg"], "path", None) == "expression" and visits[0].data["vcls"] in stripper_quals and
               isinstance(x.value, Sym) and x.value.op == "visit")
         ctx.check(ok, "R3.shorthand", "expression_relative_to_identifier",
                   f"must return IdentifierStripper(<first argument>).visit(<second argument>); got {x.outcome} {x.value!r}", um.loc(sfn), WITNESS)
